@@ -290,6 +290,10 @@ class Fn:
             c = o.get("c") if isinstance(o, dict) else None
             if c and "str" in c:
                 out.append((bb, c["str"]))
+            elif c and "evaluated" in c:
+                # a constant aggregate (`const SUFFIXES: [&str; 3] = ["-wal", ..]`): its string elements
+                for m in re.finditer(r'"((?:[^"\\]|\\.)*)"', c["evaluated"]):
+                    out.append((bb, m.group(1)))
         for bb, s in self.stmts():
             for o in s.get("o", []):
                 op(o, bb)
@@ -302,6 +306,9 @@ class Fn:
             for c in pr:
                 if "str" in c:
                     out.append((-1, c["str"]))
+                elif "evaluated" in c:
+                    for m in re.finditer(r'"((?:[^"\\]|\\.)*)"', c["evaluated"]):
+                        out.append((-1, m.group(1)))
         return out
 
     def fmt_templates(self):
